@@ -1448,7 +1448,11 @@ class ComputeGraph(MultiDiGraph):
             if type(n) is ComputeVar:
                 node_names.append(node)
             else:
-                node_names.append(list(self._get_inputs(node))[-1])
+                # indexed left-hand side: the variable that is written is the first argument of the index operation
+                # (the order of the graph predecessors does not tell the indexed variable from an index variable)
+                written = [inp for inp in self.predecessors(node)
+                           if getattr(n.expr, 'args', None) and self.get_var(inp).symbol == n.expr.args[0]]
+                node_names.append(written[0] if written else list(self._get_inputs(node))[-1])
             node_keys.append(node)
 
         keys, values, defined_vars, undefined_vars = [], [], [], []
